@@ -183,9 +183,12 @@ def trace_view(kind, st):
 def check_traces(ctx, R, outs):
     entry = R['entry']
     seen = {}
+    cut = set()          # traces that went through a call the walk did not follow (recursion beyond the bound, lazy generator): not faithful, nothing is concluded from them
     for kind, val, st in outs:
         tv = tuple(trace_view(kind, st))
         seen.setdefault(tv, (kind, val, st))
+        if any(e[0] in ('recursion-cut', 'generator') for e in st.trace):
+            cut.add(tv)
     ctx.analysed['paths'] += len(outs)
     bad = {k: [] for k in ('O1', 'O2', 'O3', 'O4', 'O5')}
     unknown_chk = [tv for tv in seen if 'chk(?)' in tv]
@@ -242,7 +245,10 @@ def check_traces(ctx, R, outs):
         'O5': 'download raises => the call raises at once',
     }
     for k in ('O1', 'O2', 'O3', 'O4', 'O5'):
-        if bad[k]:
+        if bad[k] and all(tv in cut for tv in bad[k]):
+            ctx.undecided('C20.' + k, entry, 'the only offending traces go through a call the walk does not follow (recursion beyond two activations / lazy generator): %s' % ' . '.join(sorted(bad[k], key=len)[0]))
+        elif bad[k]:
+            bad[k] = [tv for tv in bad[k] if tv not in cut]
             tv = sorted(bad[k], key=len)[0]
             kind, val, st = seen[tv]
             ctx.violated('C20.' + k, entry, 'trace: ' + ' . '.join(tv), texts[k] + ' [%d offending of %d distinct traces]' % (len(bad[k]), len(seen)))
